@@ -600,6 +600,35 @@ nd::harnesses! {
         assert!(src.calls == polls);
     }
 
+    /// Non-ASCII strings in argument and in return position: same address, same BYTE length, same bytes. The contents
+    /// are fixed multi-byte samples (so this stays decidable when a change makes the symbolic-content harnesses above
+    /// expensive); which sample and which prefix of it is symbolic.
+    #[kani::unwind(7)]
+    fn c02_strings_multibyte() {
+        let which: u8 = nd::any();
+        nd::assume(which < 3);
+        let mut s = Sh { rec: Rec::default(), buf: [0xC3, 0xA9, 0xC3, 0xBC], wide: [0; 3], n: if which == 0 { 4 } else { 2 }, k: 0, wr: [0; 3] };
+        let bufp = s.buf.as_ptr() as usize;
+        let n = s.n;
+        let obj = trait_obj!(&mut s as Shapes);
+        match which {
+            0 | 1 => {
+                let r = obj.r_str();
+                assert!(r.len() == n && r.as_ptr() as usize == bufp, "a returned string keeps its byte length and address");
+                let b = r.as_bytes();
+                assert!(b[0] == 0xC3 && b[1] == 0xA9);
+            }
+            _ => {
+                let multi = "h\u{e9}\u{20ac}";
+                obj.a_str(multi);
+                drop(obj);
+                assert!(s.rec.ptr.get() == multi.as_ptr() as usize && s.rec.len.get() == 6, "a string argument keeps its byte length and address");
+                let e = s.rec.elems.get();
+                assert!(e[0] == b'h' as u64 && e[1] == 0xC3 && e[2] == 0xA9 && e[3] == 0xE2);
+            }
+        }
+    }
+
     /// Every shape in return position.
     #[kani::unwind(7)]
     fn c02_returns() {
